@@ -74,7 +74,7 @@ class IsotropicLatentCond(ssm_impl_api.AbstractLatentCond):
 
     def apply_flat(self, x, /):
         x = self.to_latent[:, None] * x
-        mean_new = self.to_observed[:, None] * self.A @ x + self.noise.mean_flat
+        mean_new = self.to_observed[:, None] * (self.A @ x + self.noise.mean_flat)
         cholesky_new = np.abs(self.to_observed[:, None]) * self.noise.cholesky_flat
         return IsotropicNormal(mean_new, cholesky_new, self.noise.tree_flatten)
 
